@@ -2528,8 +2528,14 @@ pub fn parse_ml_predict(input: &str) -> IResult<&str, MLPredictClause<'_>> {
 
     // Extract SELECT variables
     if let Some(select_idx) = input_query.find("SELECT") {
-        if let Some(where_idx) = input_query.find("WHERE") {
-            let select_clause = &input_query[select_idx + 6..where_idx].trim();
+        // The WHERE keyword that ends the projection is the first one AFTER `SELECT`;
+        // an earlier occurrence must not be used as the end of the slice.
+        let projection_start = select_idx + "SELECT".len();
+        if let Some(where_idx) = input_query[projection_start..]
+            .find("WHERE")
+            .map(|offset| projection_start + offset)
+        {
+            let select_clause = &input_query[projection_start..where_idx].trim();
             // Parse SELECT variables (simplified version - in real code you would use your actual SELECT parser)
             let vars: Vec<&str> = select_clause.split_whitespace().collect();
             for var in vars {
